@@ -229,6 +229,13 @@ func c18Frames(c *core.Case) {
 				c.Violate("C18/frame-prefix-accepted/"+typ, fmt.Sprintf("a %d-byte prefix of a %d-byte %s frame decoded without error to %T", cut, len(enc), typ, got), map[string]any{"prefix": fmt.Sprintf("%x", enc[:minInt(cut, 64)])})
 				return
 			}
+			// io.EOF is what ReadStreamFrame answers at a frame boundary (a stream that
+			// ended between frames); a frame cut short after its first byte must not
+			// look like that to the caller
+			if cut > 0 && err == io.EOF {
+				c.Violate("C18/frame-prefix-reads-as-clean-end/"+typ, fmt.Sprintf("a %d-byte prefix of a %d-byte %s frame (reader %q) is reported as io.EOF, the value for a stream that ended cleanly between frames", cut, len(enc), typ, rk), map[string]any{"prefix": fmt.Sprintf("%x", enc[:minInt(cut, 64)])})
+				return
+			}
 		}
 		if i == 0 && c.Index < 6 {
 			c.Sample(map[string]any{"codec": "frame", "type": typ, "encoded_len": len(enc), "head": fmt.Sprintf("%x", enc[:minInt(len(enc), 32)])})
